@@ -30,6 +30,9 @@ type amType struct {
 	Disc     string    // discriminated union: name of the constant field shared by the branch structs
 	Nullable bool
 	Default  any // JSON-ish (string, bool, json.Number, []any, map[string]any) or nil
+	// NullStyle: how JSON Schema spells a nullable unconstrained scalar: "" = oneOf [T, null], "last" = type [T, "null"],
+	// "first" = type ["null", T]. Other formats ignore it.
+	NullStyle string
 }
 
 type amField struct {
